@@ -1,17 +1,26 @@
 """C13 - greedy_fvs returns a feedback vertex set."""
 from lib import engine
+from lib.core import tier
+from units import k13_fvs
 
-LEVEL = "exploration"
+LEVEL = "other"
 EXPLANATION = (
-    "Contract K13 (emitted vertices are vertices of g, pairwise distinct; g minus the emitted vertices is "
-    "acyclic; nothing for a forest) is enforced as a BOUNDED stand-in by executing the real greedy_fvs on every "
-    "labelled graph with n<=6, tie-heavy families and seeded random graphs and checking acyclicity by "
-    "union-find.  An unbounded CBMC proof would need a counting invariant over adjacency lists next to a Boost "
-    "pairing heap with handles; that is outside what the installed CBMC can parse or discharge (DESIGN 1), so no "
-    "deductive content is claimed for this property.")
+    "PROVED(n<=4, thorough 5) by CBMC (DFCC): greedy_fvs extracted to C with all eight loops closed by loop contracts whose "
+    "invariants are quantified over the bounded vertex range and count existing neighbours by explicit bounded sums; the "
+    "deque enters as a multiset and the pairing heap as a set whose top is SOME element (their contracts; any order of the "
+    "out-edge lists).  Proved: (A) on return no vertex exists any more and every vertex is emitted at most once, only while "
+    "it existed; (B) a vertex removed WITHOUT being emitted has at most one neighbour that still exists at that moment; (C) "
+    "after the first cleanup every remaining vertex has at least two remaining neighbours; (D) heap.decrease is only applied "
+    "to vertices in the heap, degree counters never underflow.  By two short lemmas (DESIGN 10.9, informal) B makes the graph "
+    "without the emitted vertices acyclic and C makes a forest emit nothing.  Termination of the cleanup loops is not proved.  "
+    "When a loop obligation fails the unit is UNDECIDED (its plain bounded variant does not finish) and the decision comes from "
+    "the BOUNDED stand-in: Contract K13 (emitted vertices are vertices of g, pairwise distinct; g minus the emitted vertices is "
+    "acyclic; nothing for a forest) enforced by executing the real greedy_fvs on every labelled graph with n<=6, tie-heavy "
+    "families and seeded random graphs and checking acyclicity by union-find.")
 
 
 def run(rep):
+    engine.run_units(rep, k13_fvs.units(tier()))
     engine.run_native(rep, "e3_components", driver="e3_components[C13]", args=["--only", "C13"],
                       functions={"greedy_fvs": "bounded(all graphs n<=6 + families + random)"},
                       entry_points=["greedy_fvs"])
